@@ -22,3 +22,18 @@ let () =
   register "closed" (function
     | L [ _; p ] -> if closed_b (as_program p) then "{\"r\":\"ok\",\"closed\":true}" else "{\"r\":\"ok\",\"closed\":false}"
     | _ -> raise (Bad "closed"))
+
+(* C14: source maps *)
+let () =
+  register "sm_ser" (function
+    | L [ _; m ] ->
+        let m = as_smap m in
+        let j = serialize m in
+        let rt = (match deserialize j with Some m' -> m' = m | None -> false) in
+        "{\"r\":\"ok\",\"json\":" ^ jjson j ^ ",\"roundtrip\":" ^ (if rt then "true" else "false") ^ "}"
+    | _ -> raise (Bad "sm_ser"));
+  register "sm_rewrite" (function
+    | L [ _; L f; m ] ->
+        let f = List.map (function L [ a; b ] -> (as_z a, as_z b) | _ -> raise (Bad "pair")) f in
+        "{\"r\":\"ok\",\"json\":" ^ jjson (serialize (rewrite_offsets f (as_smap m))) ^ "}"
+    | _ -> raise (Bad "sm_rewrite"))
